@@ -17,11 +17,17 @@
 (*   SS   Isend done status to next                    communicate_conv.]  *)
 (*   then either iter+1 and the same data exchange once more in IT_FINE    *)
 (*   (FW FS FR), or wait for all my sends and finish  [it_check, done]     *)
+(*   Gauss-Seidel flavour (JAC = FALSE) instead of FW FS FR:  [it_coarse]  *)
+(*   GR   Irecv u0, tag k+1, from prev + Wait (not first, prev not done)   *)
+(*   GS   Issend uend, tag k+1, to next WITHOUT waiting for the send of    *)
+(*        IT_CHECK (the handle of that request is overwritten), then Wait  *)
 (* The numerics are an oracle conv[p][k].                                  *)
 (***************************************************************************)
 EXTENDS SimMPI, TLC
 
-CONSTANTS N, MAXITER
+CONSTANTS N, MAXITER,
+          JAC      \* TRUE: Jacobi-like multi-step SDC (IT_FINE after the check); FALSE: Gauss-Seidel-like (IT_COARSE: blocking
+                   \* receive of the predecessor's new end value, sweep, synchronous send of the own one)
 
 Ranks == 0 .. N - 1
 
@@ -149,7 +155,7 @@ StatusSend(p) ==
 Decide(p) ==
     /\ pc[p] = "DEC"
     /\ IF done[p] THEN Goto(p, "FIN") /\ UNCHANGED iter
-       ELSE Goto(p, "FW") /\ iter' = [iter EXCEPT ![p] = @ + 1]
+       ELSE Goto(p, IF JAC THEN "FW" ELSE "GR") /\ iter' = [iter EXCEPT ![p] = @ + 1]
     /\ UNCHANGED <<pdone, done, myconv, rsflag, sends, recvs, completed, nord, nid, datareq, waitreq, conv, got>>
 
 \* finished: wait for my pending data send, then stop
@@ -166,6 +172,7 @@ RankStep(p) ==
     \/ BlockingRecvPost(p, "SR", "SRW", "SK", 200) \/ StatusRecvDone(p) \/ StatusSkip(p) \/ StatusSend(p)
     \/ Decide(p)
     \/ WaitSend(p, "FW", "FS") \/ SendData(p, "FS", "FR") \/ PostRecvData(p, "FR", "FRW", "CW") \/ WaitRecv(p, "FRW", "CW")
+    \/ PostRecvData(p, "GR", "GRW", "GS") \/ WaitRecv(p, "GRW", "GS") \/ SendData(p, "GS", "GSW") \/ WaitSend(p, "GSW", "CW")
     \/ Finish(p)
 
 AllDone == \A p \in Ranks : pc[p] = "DONE"
